@@ -241,6 +241,10 @@ CommitEffect(op, keyopt, algo, d, n, o, pubStore) ==
        THEN res' = Err("Integrity") /\ UNCHANGED <<buckets, hasIndex>>
        ELSE IF o.size # <<>> /\ o.size[1] # n
        THEN res' = ErrSize(o.size[1], n) /\ UNCHANGED <<buckets, hasIndex>>
+       \* a declared size beyond TLC's integers travels as decimal text only (o.sizes, o.size
+       \* empty): no data of this model is that long, the commit is rejected (wanted reported as -1)
+       ELSE IF o.size = <<>> /\ "sizes" \in DOMAIN o /\ o.sizes # "DEFAULT"
+       THEN res' = ErrSize(0 - 1, n) /\ UNCHANGED <<buckets, hasIndex>>
        ELSE IF keyopt = <<>>
        THEN res' = Ok(sriC) /\ UNCHANGED <<buckets, hasIndex>>
        ELSE IF ~Storable(o)
@@ -260,7 +264,10 @@ KeyOpt(op) == IF Has(op, "key") THEN <<op.key>> ELSE <<>>
 
 \* write / write_sync / write_with_algo / write_hash* : the whole sequence in one call
 WriteOneShot(op) ==
-    /\ CommitEffect(op, KeyOpt(op), op.algo, op.data, LenOf(op.data), NoOpts,
+    \* (a whole write recorded as ONE operation - system-call level histories - may carry the
+    \* metadata its writer was given)
+    /\ CommitEffect(op, KeyOpt(op), op.algo, op.data, LenOf(op.data),
+                    IF Has(op, "meta") THEN [NoOpts EXCEPT !.meta = op.meta] ELSE NoOpts,
                     Upd(store, [a |-> op.algo, d |-> op.data], FileC(op.data)))
     /\ UNCHANGED <<ext, tmp, hd>>
 
